@@ -47,8 +47,19 @@ def main(argv=None):
         print(f"[{pid}] tier={a.tier} seed={seed} violations={len(ctx.violations)} known_finding_hits={nk} "
               f"wall={ctx.coverage.get('wall_note', '')}{round(__import__('time').time() - ctx.t0, 1)}s", flush=True)
     except MachineryError as ex:
-        print(f"MACHINERY-FAILURE {pid}: {ex}", file=sys.stderr, flush=True)
-        rc = 2
+        if ctx.violations:
+            # violations were already shown against the real code (VIOLATION lines with replay files are printed as they are found); that the
+            # check could not complete afterwards (e.g. nothing left to build its later stages from) does not take them back
+            print(f"[{pid}] the check could not be completed after {len(ctx.violations)} violation(s): {ex}", file=sys.stderr, flush=True)
+            try:
+                ctx.write_evidence()
+            except Exception:
+                pass
+            print(f"[{pid}] tier={a.tier} seed={seed} violations={len(ctx.violations)} (incomplete run)", flush=True)
+            rc = 1
+        else:
+            print(f"MACHINERY-FAILURE {pid}: {ex}", file=sys.stderr, flush=True)
+            rc = 2
     except Exception:
         traceback.print_exc()
         print(f"MACHINERY-FAILURE {pid}: unexpected exception in the check itself", file=sys.stderr, flush=True)
